@@ -3,6 +3,7 @@
   (for any `T : Tab ℚ`; discharged for the dumped tables in C16Tie*).
 -/
 import OnsagerProofs.C17Rows
+import OnsagerProofs.C17Inv
 
 namespace Onsager.C16
 
@@ -48,5 +49,56 @@ theorem sem17_of_checks (T : Tab ℚ)
   · unfold Tab.deg
     rw [hexpo0]
     simp
+
+/-- the same index tables with the rational entries (`powercoeff`, `Lproj`) mapped into another ring;
+    `inversecoeff`, `coeffproduct`, `sumcoeff` only use the index tables, which are unchanged -/
+def Tab.mapK {K K' : Type} (f : K → K') (T : Tab K) : Tab K' where
+  dim := T.dim
+  lmax := T.lmax
+  npow := T.npow
+  powl := T.powl
+  expo := T.expo
+  pow2ind := T.pow2ind
+  dm := T.dm
+  pc := fun n p => f (T.pc n p)
+  proj := fun l a b => f (T.proj l a b)
+
+/-- the product-rule facts hold for the dumped index tables over EVERY commutative ring `S`
+    (they only concern `powlrange`, `ind2pow`, `directmult`) -/
+theorem semMul_mapK_of_checks {S : Type} [CommRing S] (T : Tab ℚ) (f : ℚ → S)
+    (h1 : T.checkSizes = true) (h2 : T.checkGraded = true) (h4 : T.checkDmult = true)
+    (h6 : T.checkPcoefPowers = true) : (T.mapK f).SemMul := by
+  have hB := basic_of_checks T h1 h2
+  have hexpo0 : T.expo 0 = List.replicate T.dim 0 := by
+    simp only [Tab.checkPcoefPowers, Bool.and_eq_true, decide_eq_true_eq, beq_iff_eq, allLt_iff] at h6
+    exact h6.1.1.2
+  refine ⟨hB.phi_mono, ?_, ?_, hB.phi_zero⟩
+  · simp only [Tab.checkDmult, allLt_iff] at h4
+    intro la lb pa pb hg hpa hpb
+    have hg' : la + lb ≤ T.lmax := hg
+    have hpa0 : pa < T.phi la := hpa
+    have hpb0 : pb < T.phi lb := hpb
+    have hla : la ≤ T.lmax := by omega
+    have hlb : lb ≤ T.lmax := by omega
+    have hpa' := hB.lt_npow hla hpa0
+    have hpb' := hB.lt_npow hlb hpb0
+    have hda := (hB.graded pa la hpa' hla).mp hpa0
+    have hdb := (hB.graded pb lb hpb' hlb).mp hpb0
+    have h := h4 pa hpa' pb hpb'
+    rw [if_pos (by omega)] at h
+    simp only [Bool.and_eq_true, decide_eq_true_eq, beq_iff_eq] at h
+    obtain ⟨⟨⟨h0, hlt⟩, hexpo⟩, _⟩ := h
+    refine ⟨(T.dm pa pb).toNat, ?_, ?_, ?_⟩
+    · show T.dm pa pb = _; omega
+    · have hdeg : T.deg (T.dm pa pb).toNat = T.deg pa + T.deg pb := by
+        unfold Tab.deg
+        rw [hexpo, sum_zipWith_add _ _ (by rw [hB.expo_len pa hpa', hB.expo_len pb hpb'])]
+      exact (hB.graded _ (la + lb) hlt hg').mpr (by omega)
+    · intro u
+      show monoOf u (T.expo _) = monoOf u (T.expo pa) * monoOf u (T.expo pb)
+      rw [hexpo, monoOf_add _ _ _ (by rw [hB.expo_len pa hpa', hB.expo_len pb hpb'])]
+  · intro u
+    show monoOf u (T.expo 0) = 1
+    rw [hexpo0, monoOf_zeros]
 
 end Onsager.C16
